@@ -26,6 +26,9 @@ def fidx(prog, adt, name):
 
 
 def check(env, rep, tier):
+    include(rep, env, tier, "c19", ("C19.3",), "C07.7",
+            "'an error reply carries ... the text/plain content format': the reply may already carry a Content-Format when the error is applied, "
+            "so the setter apply_from_error relies on has to replace whatever is there")
     configs = ["default"] if tier == "quick" else ["default", "nodefault"]
     rep.configs = configs
     for cfg in configs:
